@@ -20,7 +20,9 @@ namespace LinCode
 theorem boundHolds_iff (lam d0 d1 n q t : Nat) :
     boundHolds lam d0 d1 n q t = true ↔
       2 * (2 * d1 - d0) ^ t * q * 2 ^ lam + n * (2 * d1) ^ t * 2 ^ lam ≤ (2 * d1) ^ t * q := by
-  unfold boundHolds; rw [decide_eq_true_iff]
+  show decide (2 * (2 * d1 - d0) ^ t * q * 2 ^ lam + n * (2 * d1) ^ t * 2 ^ lam ≤ (2 * d1) ^ t * q)
+    = true ↔ _
+  rw [decide_eq_true_iff]
 
 /-- If the bound holds for `t` openings it holds for `t + 1` (no side condition: in ℕ
 `2·d1 − d0 ≤ 2·d1` always). -/
@@ -322,10 +324,6 @@ theorem tLeastFast_eq (lam d0 d1 n q hint : Nat) :
       · rename_i h; exact (certified_sound _ _ _ _ _ _ h).symm
       · rfl
 
-theorem tSpecFast_eq (lam d0 d1 n q hint : Nat) :
-    tSpecFast lam d0 d1 n q hint = tSpec lam d0 d1 n q := by
-  unfold tSpecFast tSpec; rw [tLeastFast_eq]
-
 theorem capAt_eq_min (n t : Nat) : capAt n t = min t n := by
   unfold capAt; split <;> omega
 
@@ -396,6 +394,36 @@ theorem tSpec_isSome_iff (lam d0 d1 n q : Nat) (hd0 : 0 < d0) (hd : d0 < 2 * d1)
         have : (2 * d1) ^ T ≤ (2 * d1) ^ T * (S + 1) := Nat.le_mul_of_pos_right _ (by omega)
         omega
       rw [hall T] at hT; cases hT
+
+theorem cappedCert_sound (lam d0 d1 n q : Nat) (h : cappedCert lam d0 d1 n q = true) :
+    tSpec lam d0 d1 n q = some n := by
+  unfold cappedCert distanceUsable at h
+  simp only [Bool.and_eq_true, decide_eq_true_eq, Bool.not_eq_true'] at h
+  obtain ⟨⟨⟨⟨⟨⟨hd1, hd0⟩, hd⟩, hq⟩, hn⟩, hnone⟩, hb⟩ := h
+  have hres : n * 2 ^ lam < q := by
+    by_contra hcon
+    have : noneCert lam d0 d1 n q = true := by
+      unfold noneCert
+      simp only [Bool.and_eq_true, Bool.or_eq_true, decide_eq_true_eq]
+      exact ⟨hd1, Or.inr ⟨hq, Or.inr ⟨hd, by omega⟩⟩⟩
+    rw [this] at hnone; cases hnone
+  have hsome := (tSpec_isSome_iff lam d0 d1 n q hd0 hd hq).2 hres
+  cases hs : tSpec lam d0 d1 n q with
+  | none => rw [hs] at hsome; cases hsome
+  | some r =>
+    obtain ⟨t, hr, hbt, _⟩ := (tSpec_eq_some_iff lam d0 d1 n q r hd0 hd hq).1 hs
+    have hge : n ≤ t := by
+      by_contra hlt
+      have := bound_mono_le lam d0 d1 n q (show t ≤ n - 1 by omega) hbt
+      rw [hb] at this; cases this
+    rw [hr, Nat.min_eq_right hge]
+
+theorem tSpecFast_eq (lam d0 d1 n q hint : Nat) :
+    tSpecFast lam d0 d1 n q hint = tSpec lam d0 d1 n q := by
+  unfold tSpecFast
+  split
+  · rename_i h; exact (cappedCert_sound _ _ _ _ _ h).symm
+  · unfold tSpec; rw [tLeastFast_eq]
 
 /-- the model of `calculate_t` answers `t` exactly when the distance is usable and `tSpec = some t` -/
 theorem calcT_ok_iff (lam d0 d1 n q hint t : Nat) :
